@@ -209,4 +209,44 @@ def cycle (cfg : Cfg) (P : Store) (now now1 : Tick) (exec : Id → Nat → Outco
       let P3 := if d then purge P2 r.st cfg.owned (known cfg) else P2
       { invoked := r.invoked, P' := P3, closed := d, delays := delays r.st (known cfg).eraseDups now1 }
 
+/-! ### Sub-handlers: `subhandling.execute()`
+
+Run from inside an invoked parent handler (explicitly, or implicitly when the parent's function returns)
+over the sub-handlers the parent has registered: `State.from_storage(body, owned) → with_purpose(reason)`
+(no re-purposing of records) `→ with_handlers(selected) → execute_handlers_once → with_outcomes → store`,
+then every key of that state is added to the parent's `subrefs`, and `HandlerChildrenRetry(delay=state.delay)`
+is raised unless `state.done`. `execute_handler_once` turns that into the parent's outcome: a non-final
+retry with that delay, or (the function returning normally) a success. -/
+
+/-- `state.delay`: the soonest of the pending delays. -/
+def minDelay : List Tick → Option Tick
+  | [] => none
+  | x :: xs => some (xs.foldl min x)
+
+structure SubResult where
+  invoked : List (Id × Nat)
+  st : St                  -- the sub-state after `with_outcomes`
+  P' : Store               -- the records after `state.store`
+  outcome : Outcome        -- the parent's outcome, its own function raising nothing
+
+def subPass (cfg : Cfg) (P : Store) (now now1 : Tick) (exec : Id → Nat → Outcome) : SubResult :=
+  let st0 := withHandlers (fromStorage P cfg.owned) cfg.selected cfg.reason now
+  let r := execOnce cfg st0 now now1 exec
+  let keys := (known cfg).eraseDups.filter (fun i => (r.st i).isSome)
+  let d := done r.st (known cfg)
+  { invoked := r.invoked, st := r.st, P' := store P r.st,
+    outcome := { final := d, error := !d, subrefs := keys,
+                 delay := if d then none else minDelay (delays r.st (known cfg).eraseDups now1) } }
+
+/-! ### Predicates used in the property statements -/
+
+/-- No stored record of an owned handler carries a purpose other than the current reason
+    (the state a handling cycle is in from its second pass on, and after any closed cycle). -/
+def NoExtras (cfg : Cfg) (P : Store) : Prop :=
+  ∀ i ∈ cfg.owned, ∀ r, P i = some r → r.purpose = none ∨ r.purpose = some cfg.reason
+
+/-- All stored records of the owned handlers carry the same purpose (what every pass leaves behind). -/
+def UniformOn (owned : List Id) (P : Store) : Prop :=
+  ∃ p : String, ∀ i ∈ owned, ∀ r, P i = some r → r.purpose = some p
+
 end Kopf.C02
